@@ -514,6 +514,152 @@ def src_CheckProposerMessage_headerChecks : List String := [%s]
 		}
 		fmt.Fprintf(&b, "def src_%s : String := %q\n", fn, g.StmtsText(bftDropStmts(fd.Body.List, isLog)))
 	}
+	// ---- liveness (C15): pacemaker threshold, wait-time arithmetic
+	utilF, err := g.ParseFile(filepath.Join(*repo, "lib/util.go"))
+	if err != nil {
+		return "", err
+	}
+	rp := utilF.FindFunc("", "Uint64ReducePercentage")
+	if rp == nil {
+		return "", fmt.Errorf("lib/util.go: Uint64ReducePercentage not found")
+	}
+	rpTr := &g.Translator{Cfg: g.Config{Types: map[string]string{"uint64": "UInt64"}, Idents: map[string]string{}, Calls: map[string]func([]string) (string, error){}}}
+	rpTxt, err := rpTr.Func(rp, "uint64ReducePercentage")
+	if err != nil {
+		return "", err
+	}
+	fmt.Fprintf(&b, "\n/-- lib/util.go Uint64ReducePercentage (uint64 arithmetic) -/\n%s\n", rpTxt)
+	pm := bftF.FindFunc("BFT", "Pacemaker")
+	if pm == nil {
+		return "", fmt.Errorf("Pacemaker not found")
+	}
+	var pmCond ast.Expr
+	var pmJump string
+	ast.Inspect(pm.Body, func(n ast.Node) bool {
+		if is, ok := n.(*ast.IfStmt); ok {
+			if strings.HasPrefix(g.ExprText(is.Cond), "totalVotedPower >= ") {
+				pmCond = is.Cond
+			}
+			if strings.Contains(g.ExprText(is.Cond), "pacemakerRound > b.Round") {
+				pmJump = g.StmtText(&ast.IfStmt{Cond: is.Cond, Body: &ast.BlockStmt{List: bftDropStmts(is.Body.List, isLog)}})
+			}
+		}
+		return true
+	})
+	if pmCond == nil {
+		return "", fmt.Errorf("Pacemaker: the threshold comparison `totalVotedPower >= ...` not found")
+	}
+	pmTr := &g.Translator{Cfg: g.Config{Idents: map[string]string{"b.ValidatorSet.MinimumMaj23": "minMaj23", "b.ValidatorSet.TotalPower": "totalPower"},
+		Calls: map[string]func([]string) (string, error){"lib.Uint64ReducePercentage": g.App("uint64ReducePercentage")}}}
+	pe2, err := pmTr.Expr(pmCond)
+	if err != nil {
+		return "", fmt.Errorf("Pacemaker threshold %q: %v", g.ExprText(pmCond), err)
+	}
+	fmt.Fprintf(&b, "/-- bft/bft.go Pacemaker: `if %s { pacemakerRound = vote.Qc.Header.Round; break }` (votes visited from the highest claimed round down) -/\ndef pacemakerReached (totalVotedPower minMaj23 totalPower : UInt64) : Bool := %s\n", g.ExprText(pmCond), pe2)
+	fmt.Fprintf(&b, "def src_Pacemaker_threshold : String := %q\ndef src_Pacemaker_jump : String := %q\n", g.ExprText(pmCond), pmJump)
+	fmt.Fprintf(&b, "def src_Pacemaker : String := %q\n", bftNormLogs(g.StmtsText(pm.Body.List)))
+	ri := bftF.FindFunc("BFT", "RoundInterrupt")
+	if ri == nil {
+		return "", fmt.Errorf("RoundInterrupt not found")
+	}
+	fmt.Fprintf(&b, "def src_RoundInterrupt : String := %q\n", bftNormLogs(g.StmtsText(ri.Body.List)))
+	// waitTime(sleepTimeMS, round): milliseconds as Nat (time.Duration(...) * time.Millisecond is the unit conversion)
+	wt := bftF.FindFunc("BFT", "waitTime")
+	if wt == nil || len(wt.Body.List) != 1 {
+		return "", fmt.Errorf("waitTime not found or not a single return")
+	}
+	wtTr := &g.Translator{Cfg: g.Config{Idents: map[string]string{"time.Millisecond": "1"}, Calls: map[string]func([]string) (string, error){
+		"time.Duration": func(a []string) (string, error) { return a[0], nil }}}}
+	we, err := wtTr.Expr(wt.Body.List[0].(*ast.ReturnStmt).Results[0])
+	if err != nil {
+		return "", fmt.Errorf("waitTime: %v", err)
+	}
+	fmt.Fprintf(&b, "/-- bft/bft.go waitTime, in milliseconds (Nat: no wrap-around; see C15.waitTime_fits for when the uint64/Duration arithmetic agrees) -/\ndef waitTime (sleepTimeMS round : Nat) : Nat := %s\ndef src_waitTime : String := %q\n", we, g.StmtsText(wt.Body.List))
+	// WaitTime: which configuration value each phase waits for
+	WT := bftF.FindFunc("BFT", "WaitTime")
+	if WT == nil {
+		return "", fmt.Errorf("WaitTime not found")
+	}
+	var wtRows []string
+	ast.Inspect(WT.Body, func(n ast.Node) bool {
+		cc, ok := n.(*ast.CaseClause)
+		if !ok || len(cc.List) != 1 || len(cc.Body) == 0 {
+			return true
+		}
+		ph, ok := idents[g.ExprText(cc.List[0])]
+		if !ok {
+			return true
+		}
+		wtRows = append(wtRows, fmt.Sprintf("(%s, %q)", ph, strings.TrimPrefix(g.StmtText(cc.Body[len(cc.Body)-1]), "waitTime = ")))
+		return true
+	})
+	fmt.Fprintf(&b, "/-- bft/bft.go WaitTime: phase -> the expression assigned to the wait time -/\ndef waitTimeTable : List (Nat × String) := [%s]\n", strings.Join(wtRows, ", "))
+	// msLeftInRound: switch on the phase, each case returns a sum of phase waits
+	ml := bftF.FindFunc("BFT", "msLeftInRound")
+	if ml == nil {
+		return "", fmt.Errorf("msLeftInRound not found")
+	}
+	mlIdents := map[string]string{}
+	var mlDefs []string
+	for _, st := range ml.Body.List {
+		as, ok := st.(*ast.AssignStmt)
+		if !ok || len(as.Lhs) != 1 {
+			continue
+		}
+		rhs := g.ExprText(as.Rhs[0]) // b.WaitTime(Election, b.Round).Milliseconds()
+		m := regexp.MustCompile(`^b\.WaitTime\((\w+), b\.Round\)\.Milliseconds\(\)$`).FindStringSubmatch(rhs)
+		if m == nil {
+			return "", fmt.Errorf("msLeftInRound: unexpected definition %s", g.StmtText(st))
+		}
+		ph, ok := idents[m[1]]
+		if !ok {
+			return "", fmt.Errorf("msLeftInRound: unknown phase %s", m[1])
+		}
+		mlIdents[g.ExprText(as.Lhs[0])] = fmt.Sprintf("(w %s)", ph)
+		mlDefs = append(mlDefs, fmt.Sprintf("(%q, %s)", g.ExprText(as.Lhs[0]), ph))
+	}
+	mlTr := &g.Translator{Cfg: g.Config{Idents: mlIdents, Calls: map[string]func([]string) (string, error){"int": func(a []string) (string, error) { return a[0], nil }}}}
+	var mlBody strings.Builder
+	found := false
+	for _, st := range ml.Body.List {
+		sw, ok := st.(*ast.SwitchStmt)
+		if !ok || g.ExprText(sw.Tag) != "b.Phase" {
+			continue
+		}
+		found = true
+		def := "0"
+		for _, c := range sw.Body.List {
+			cc := c.(*ast.CaseClause)
+			if len(cc.Body) != 1 {
+				return "", fmt.Errorf("msLeftInRound: case with %d statements", len(cc.Body))
+			}
+			rs, ok := cc.Body[0].(*ast.ReturnStmt)
+			if !ok || len(rs.Results) != 1 {
+				return "", fmt.Errorf("msLeftInRound: case body is not a single return")
+			}
+			e, err := mlTr.Expr(rs.Results[0])
+			if err != nil {
+				return "", fmt.Errorf("msLeftInRound: %v", err)
+			}
+			if cc.List == nil {
+				def = e
+				continue
+			}
+			for _, l := range cc.List {
+				ph, ok := idents[g.ExprText(l)]
+				if !ok {
+					return "", fmt.Errorf("msLeftInRound: unknown phase %s", g.ExprText(l))
+				}
+				fmt.Fprintf(&mlBody, "  if phase = %s then %s else\n", ph, e)
+			}
+		}
+		fmt.Fprintf(&mlBody, "  %s\n", def)
+	}
+	if !found {
+		return "", fmt.Errorf("msLeftInRound: switch b.Phase not found")
+	}
+	fmt.Fprintf(&b, "/-- bft/bft.go msLeftInRound: `w p` = WaitTime(p, b.Round) in milliseconds; what RoundInterrupt waits for -/\ndef msLeftInRound (phase : Nat) (w : Nat → Nat) : Nat :=\n%s", mlBody.String())
+	fmt.Fprintf(&b, "def msLeftInRound_terms : List (String × Nat) := [%s]\n", strings.Join(mlDefs, ", "))
 	b.WriteString("\nend Canopy.Gen.Bft\n")
 	return b.String(), nil
 }
